@@ -684,7 +684,7 @@ def run(ctx: Ctx):
 
     # ---------------- random histories
     kinds = ["Grid", "Grid", "OneDGrid", "AtomGrid", "MolGrid", "UniformGrid", "Tensor1DGrids", "PeriodicGrid"]
-    nh = 1600 if ctx.quick else 48000
+    nh = 1600 if ctx.quick else 32000
     maxlen = 8 if ctx.quick else 12
     hs = [wit_hist[f] for f in FLAGS]
     seen = set()
